@@ -347,11 +347,17 @@ func Forall(bound []*Term, body *Term, pats ...[]*Term) *Term {
 	if body == TTrue {
 		return TTrue
 	}
+	if len(bound) == 0 {
+		return body
+	}
 	return &Term{Op: "forall", Bound: bound, Args: []*Term{body}, S: SBool, Pats: pats}
 }
 func Exists(bound []*Term, body *Term) *Term {
 	if body == TFalse {
 		return TFalse
+	}
+	if len(bound) == 0 {
+		return body
 	}
 	return &Term{Op: "exists", Bound: bound, Args: []*Term{body}, S: SBool}
 }
